@@ -102,6 +102,13 @@ def loop_handler(ip, s, fr: Frame, it):
         if idx_name is None:
             idx_name = f"__i{k}"
         fr.vars[idx_name] = VInt(0)
+    visited_name = None
+    if isinstance(s, ast.For) and isinstance(it, VSet):
+        visited_name = inv.ghost.get("visited", f"__visited{k}")
+        vref = st.new_ref()
+        st.heap[(vref, "set")] = z3.K(sort_of_type(it.elem), z3.BoolVal(False))
+        fr.vars[visited_name] = VSet(vref, it.elem)
+        set_at_entry = st.heap[(it.ref, "set")]
     for g, (t, init) in inv.ghost.get("vars", {}).items():
         fr.vars[g] = ip.eval_spec_expr(init, inv_env(), old)
     inv_items = list(inv.invariant.items()) if isinstance(inv.invariant, dict) else list(enumerate(inv.invariant))
@@ -119,6 +126,12 @@ def loop_handler(ip, s, fr: Frame, it):
                 fr.assign(name, ip.havoc_value(cur, None, name))
             else:
                 fr.assign(name, mk_sym(st, ip.tenv, t, st.fresh_name(name)))
+    if visited_name is not None:
+        vis = st.fresh(visited_name, z3.ArraySort(sort_of_type(it.elem), z3.BoolSort()))
+        st.heap[(fr.vars[visited_name].ref, "set")] = vis
+        # visited elements are elements of the set being iterated
+        y = z3.Const(st.fresh_name("y"), sort_of_type(it.elem))
+        st.assume(z3.ForAll([y], z3.Implies(z3.Select(vis, y), z3.Select(set_at_entry, y))))
     if idx_name is not None and seq_term is not None:
         i_t = st.fresh(idx_name, z3.IntSort())
         st.assume(z3.And(i_t >= 0, i_t <= z3.Length(seq_term)))
@@ -134,8 +147,12 @@ def loop_handler(ip, s, fr: Frame, it):
                 raise PathInfeasible()   # guard still true: this is the iterate case, explored separately
         elif seq_term is not None:
             st.assume(fr.vars[idx_name].term == z3.Length(seq_term))
+        elif visited_name is not None:
+            st.assume(st.heap[(fr.vars[visited_name].ref, "set")] == set_at_entry)   # every element was visited
         elif isinstance(s, ast.AsyncFor):
             raise PathInfeasible() if not inv.ghost.get("may_exit", False) else None
+        if not st.feasible(z3.BoolVal(True)):
+            raise PathInfeasible()      # the loop cannot end here (e.g. the searched element must be found)
         ip.exec_block(s.orelse, fr)
         return
     # iterate once
@@ -148,6 +165,10 @@ def loop_handler(ip, s, fr: Frame, it):
         ip.assign_target(s.target, item, fr)
     else:
         item = next_item(ip, it, seq_term, fr, idx_name, inv, k)
+        if visited_name is not None:
+            vr = fr.vars[visited_name].ref
+            st.assume(z3.Not(z3.Select(st.heap[(vr, "set")], term_of(item))))
+            loop_item = item
         ip.assign_target(s.target, item, fr)
     try:
         ip.exec_block(s.body, fr)
@@ -157,6 +178,9 @@ def loop_handler(ip, s, fr: Frame, it):
         pass
     if idx_name is not None and seq_term is not None:
         fr.vars[idx_name] = VInt(fr.vars[idx_name].term + 1)
+    if visited_name is not None:
+        vr = fr.vars[visited_name].ref
+        st.heap[(vr, "set")] = z3.Store(st.heap[(vr, "set")], term_of(loop_item), z3.BoolVal(True))
     for upd_name, upd in inv.ghost.get("update", {}).items():
         fr.vars[upd_name] = ip.eval_spec_expr(upd, inv_env(), old)
     for i, clause in inv_items:
@@ -196,6 +220,13 @@ def next_item(ip, it, seq_term, fr, idx_name, inv, k):
     raise Unsupported(f"loop #{k}: iteration over {it!r}")
 
 
+def kterm(ip, key):
+    """z3 term of a collection key / element; an Optional known to be present is unwrapped"""
+    if isinstance(key, VOpt):
+        key = ip.unopt(key)
+    return term_of(key)
+
+
 def mk_key(ip, m: VMap):
     x = ip.st.fresh("key", sort_of_type(m.key))
     return wrap(m.key, x) if m.key[0] != "obj" else VObj(m.key[1], x)
@@ -204,10 +235,14 @@ def mk_key(ip, m: VMap):
 # ---------------------------------------------------------------------- symbolic map operations
 def map_get(ip, m: VMap, key: V) -> V:
     st = ip.st
-    val = z3.Select(st.heap[(m.ref, "val")], term_of(key))
+    val = z3.Select(st.heap[(m.ref, "val")], kterm(ip, key))
     vt = m.val
-    if vt[0] in ("seq", "set"):
-        raise Unsupported("nested collection values of a symbolic map")
+    if vt[0] == "seq":
+        from .tys import elem_type
+        return VSeq(("mv", m.ref, kterm(ip, key)), elem_type(vt[1]))
+    if vt[0] == "set":
+        from .tys import elem_type
+        return VSet(("mv", m.ref, kterm(ip, key)), elem_type(vt[1]))
     if vt[0] == "obj":
         return VObj(vt[1], val)
     return wrap(vt, val)
@@ -215,7 +250,7 @@ def map_get(ip, m: VMap, key: V) -> V:
 
 def map_getitem(ip, m: VMap, key: V):
     st = ip.st
-    indom = z3.Select(st.heap[(m.ref, "dom")], term_of(key))
+    indom = z3.Select(st.heap[(m.ref, "dom")], kterm(ip, key))
     if not ip.spec_mode and not st.branch(indom):
         raise_("KeyError")
     return map_get(ip, m, key)
@@ -223,8 +258,8 @@ def map_getitem(ip, m: VMap, key: V):
 
 def map_setitem(ip, m: VMap, key: V, v: V):
     st = ip.st
-    st.heap[(m.ref, "dom")] = z3.Store(st.heap[(m.ref, "dom")], term_of(key), z3.BoolVal(True))
-    st.heap[(m.ref, "val")] = z3.Store(st.heap[(m.ref, "val")], term_of(key), coerce(ip, v, m.val))
+    st.heap[(m.ref, "dom")] = z3.Store(st.heap[(m.ref, "dom")], kterm(ip, key), z3.BoolVal(True))
+    st.heap[(m.ref, "val")] = z3.Store(st.heap[(m.ref, "val")], kterm(ip, key), coerce(ip, v, m.val))
 
 
 def coerce(ip, v: V, t):
@@ -264,7 +299,14 @@ def m_get(ip, args, kwargs, node):
     m, key = args[0], args[1]
     default = args[2] if len(args) > 2 else VNone
     st = ip.st
-    indom = z3.Select(st.heap[(m.ref, "dom")], term_of(key))
+    indom = z3.Select(st.heap[(m.ref, "dom")], kterm(ip, key))
+    if ip.spec_mode and m.val[0] == "seq" and isinstance(default, (VList, VTuple)) and not ip.items_of(default):
+        from .tys import elem_type
+        et = elem_type(m.val[1])
+        ref = st.new_ref()
+        st.heap[(ref, "seq")] = z3.If(indom, z3.Select(st.heap[(m.ref, "val")], kterm(ip, key)),
+                                      z3.Empty(z3.SeqSort(sort_of_type(et))))
+        return VSeq(ref, et)
     if ip.spec_mode:
         return ip.ite(indom, map_get(ip, m, key), default)
     if st.branch(indom):
@@ -275,10 +317,10 @@ def m_get(ip, args, kwargs, node):
 def m_pop(ip, args, kwargs, node):
     m, key = args[0], args[1]
     st = ip.st
-    indom = z3.Select(st.heap[(m.ref, "dom")], term_of(key))
+    indom = z3.Select(st.heap[(m.ref, "dom")], kterm(ip, key))
     if st.branch(indom):
         v = map_get(ip, m, key)
-        st.heap[(m.ref, "dom")] = z3.Store(st.heap[(m.ref, "dom")], term_of(key), z3.BoolVal(False))
+        st.heap[(m.ref, "dom")] = z3.Store(st.heap[(m.ref, "dom")], kterm(ip, key), z3.BoolVal(False))
         return v
     if len(args) > 2:
         return args[2]
@@ -378,3 +420,194 @@ def install(lib):  # noqa: F811
     meth[("seq", "pop")] = VBuiltin("list.pop", seq_pop)
     lib["__getitem__"]["seq"] = seq_getitem
     lib["__slice__"]["seq"] = seq_slice
+
+
+# ---------------------------------------------------------------------- sets, queues, heap maps
+def _setv(ip, s):
+    return ip.st.heap[(s.ref, "set")]
+
+
+def _obj_or_wrap(t, term):
+    return VObj(t[1], term) if t[0] in ("obj", "symobj") else wrap(t, term)
+
+
+def set_add(ip, args, kwargs, node):
+    s, x = args
+    ip.st.heap[(s.ref, "set")] = z3.Store(_setv(ip, s), kterm(ip, x), z3.BoolVal(True))
+    return VNone
+
+
+def set_discard(ip, args, kwargs, node):
+    s, x = args
+    ip.st.heap[(s.ref, "set")] = z3.Store(_setv(ip, s), kterm(ip, x), z3.BoolVal(False))
+    return VNone
+
+
+def set_remove(ip, args, kwargs, node):
+    s, x = args
+    if not ip.spec_mode and not ip.st.branch(z3.Select(_setv(ip, s), kterm(ip, x))):
+        raise_("KeyError")
+    return set_discard(ip, args, kwargs, node)
+
+
+def set_pop(ip, args, kwargs, node):
+    s = args[0]
+    cur = _setv(ip, s)
+    empty = z3.K(sort_of_type(s.elem), z3.BoolVal(False))
+    if ip.st.branch(cur == empty):
+        raise_("KeyError", "pop from an empty set")
+    x = ip.st.fresh("popped", sort_of_type(s.elem))
+    ip.st.assume(z3.Select(cur, x))       # an arbitrary element
+    ip.st.heap[(s.ref, "set")] = z3.Store(cur, x, z3.BoolVal(False))
+    return _obj_or_wrap(s.elem, x)
+
+
+def q_put_nowait(ip, args, kwargs, node):
+    return seq_append(ip, args, kwargs, node)    # unbounded asyncio.Queue: never QueueFull
+
+
+def q_get_nowait(ip, args, kwargs, node):
+    s = args[0]
+    cur = _seq(ip, s)
+    if ip.st.branch(z3.Length(cur) == 0):
+        raise_("QueueEmpty")
+    x = cur[0]
+    ip.st.heap[(s.ref, "seq")] = z3.SubSeq(cur, 1, z3.Length(cur) - 1)
+    return _obj_or_wrap(s.elem, x)
+
+
+def q_qsize(ip, args, kwargs, node):
+    return VInt(z3.Length(_seq(ip, args[0])))
+
+
+def q_empty(ip, args, kwargs, node):
+    return VBool(z3.Length(_seq(ip, args[0])) == 0)
+
+
+def m_setdefault(ip, args, kwargs, node):
+    m, key = args[0], args[1]
+    default = args[2] if len(args) > 2 else VNone
+    st = ip.st
+    indom = z3.Select(st.heap[(m.ref, "dom")], kterm(ip, key))
+    if not st.branch(indom):
+        st.heap[(m.ref, "dom")] = z3.Store(st.heap[(m.ref, "dom")], kterm(ip, key), z3.BoolVal(True))
+        if m.val[0] == "seq":
+            items = ip.items_of(default) if isinstance(default, (VList, VTuple)) else None
+            if items is None:
+                raise Unsupported("setdefault with a non-literal list default")
+            from .tys import elem_type
+            et = elem_type(m.val[1])
+            sq = z3.Empty(z3.SeqSort(sort_of_type(et)))
+            for it in items:
+                sq = z3.Concat(sq, z3.Unit(term_of(it)))
+            st.heap[(m.ref, "val")] = z3.Store(st.heap[(m.ref, "val")], kterm(ip, key), sq)
+        else:
+            st.heap[(m.ref, "val")] = z3.Store(st.heap[(m.ref, "val")], kterm(ip, key), coerce(ip, default, m.val))
+    return map_get(ip, m, key)
+
+
+def m_pop_any(ip, args, kwargs, node):
+    """dict.pop(k[, default]) for maps whose values may be collections: the popped value is a detached copy"""
+    m, key = args[0], args[1]
+    st = ip.st
+    indom = z3.Select(st.heap[(m.ref, "dom")], kterm(ip, key))
+    if st.branch(indom):
+        if m.val[0] in ("seq", "set"):
+            from .tys import elem_type
+            ref = st.new_ref()
+            content = z3.Select(st.heap[(m.ref, "val")], kterm(ip, key))
+            st.heap[(ref, "seq" if m.val[0] == "seq" else "set")] = content
+            v = VSeq(ref, elem_type(m.val[1])) if m.val[0] == "seq" else VSet(ref, elem_type(m.val[1]))
+        else:
+            v = map_get(ip, m, key)
+        st.heap[(m.ref, "dom")] = z3.Store(st.heap[(m.ref, "dom")], kterm(ip, key), z3.BoolVal(False))
+        return v
+    if len(args) > 2:
+        return args[2]
+    raise_("KeyError")
+
+
+def map_min_key(ip, m: VMap):
+    st = ip.st
+    dom = st.heap[(m.ref, "dom")]
+    if st.branch(dom == z3.K(sort_of_type(m.key), z3.BoolVal(False))):
+        raise_("ValueError", "min() arg is an empty sequence")
+    k = st.fresh("minkey", sort_of_type(m.key))
+    j = z3.Const(st.fresh_name("j"), sort_of_type(m.key))
+    st.assume(z3.Select(dom, k))
+    st.assume(z3.ForAll([j], z3.Implies(z3.Select(dom, j), k <= j)))
+    return wrap(m.key, k)
+
+
+class VHMap(V):
+    """dict whose values are mutable heap objects (e.g. broker.queues: name -> DummyQueue).  Within one
+    function execution lookups are supported for one symbolic key (and keys provably equal to it)."""
+    kind = "hmap"
+
+    def __init__(self, ref, key, cls):
+        self.ref = ref
+        self.key = key
+        self.cls = cls
+
+
+def hmap_lookup(ip, m: VHMap, key: V, create=True):
+    st = ip.st
+    cache = st.heap.get((m.ref, "cache"), ())
+    for kt, obj in cache:
+        if st.must(kt == kterm(ip, key)):
+            return obj
+    for kt, obj in cache:
+        if st.feasible(kt == kterm(ip, key)):
+            raise Unsupported("lookup of a second, possibly equal key in a map of heap objects")
+    obj = mk_sym(st, ip.tenv, ("obj", m.cls), st.fresh_name(f"{m.cls}"))
+    st.heap[(m.ref, "cache")] = tuple(cache) + ((kterm(ip, key), obj),)
+    return obj
+
+
+def hmap_getitem(ip, m: VHMap, key: V):
+    st = ip.st
+    indom = z3.Select(st.heap[(m.ref, "dom")], kterm(ip, key))
+    if not ip.spec_mode and not st.branch(indom):
+        raise_("KeyError")
+    return hmap_lookup(ip, m, key)
+
+
+def hmap_setitem(ip, m: VHMap, key: V, v: V):
+    st = ip.st
+    st.heap[(m.ref, "dom")] = z3.Store(st.heap[(m.ref, "dom")], kterm(ip, key), z3.BoolVal(True))
+    cache = [(kt, o) for kt, o in st.heap.get((m.ref, "cache"), ()) if not st.must(kt == kterm(ip, key))]
+    for kt, o in cache:
+        if st.feasible(kt == kterm(ip, key)):
+            raise Unsupported("assignment to a second, possibly equal key in a map of heap objects")
+    st.heap[(m.ref, "cache")] = tuple(cache) + ((kterm(ip, key), v),)
+
+
+def hmap_pop(ip, args, kwargs, node):
+    m, key = args[0], args[1]
+    st = ip.st
+    indom = z3.Select(st.heap[(m.ref, "dom")], kterm(ip, key))
+    if st.branch(indom):
+        v = hmap_lookup(ip, m, key)
+        st.heap[(m.ref, "dom")] = z3.Store(st.heap[(m.ref, "dom")], kterm(ip, key), z3.BoolVal(False))
+        return v
+    if len(args) > 2:
+        return args[2]
+    raise_("KeyError")
+
+
+_install_seq = install
+
+
+def install(lib):  # noqa: F811
+    _install_seq(lib)
+    meth = lib["__methods__"]
+    for n, f in (("add", set_add), ("discard", set_discard), ("remove", set_remove), ("pop", set_pop)):
+        meth[("set", n)] = VBuiltin("set." + n, f)
+    for n, f in (("put_nowait", q_put_nowait), ("get_nowait", q_get_nowait), ("qsize", q_qsize), ("empty", q_empty)):
+        meth[("seq", n)] = VBuiltin("Queue." + n, f)
+    meth[("map", "setdefault")] = VBuiltin("dict.setdefault", m_setdefault)
+    meth[("map", "pop")] = VBuiltin("dict.pop", m_pop_any)
+    meth[("hmap", "pop")] = VBuiltin("dict.pop", hmap_pop)
+    lib["__getitem__"]["hmap"] = hmap_getitem
+    lib["__setitem__"]["hmap"] = hmap_setitem
+    lib["__minkey__"] = map_min_key
